@@ -201,6 +201,10 @@ def relay_scenarios(ctx, s1, s2):
     # an acceptance that comes after the source's msg-timeout: late FIN of a message that was redelivered meanwhile
     for i in range(1 if ctx.quick else 4):
         add("nsq_to_nsq", MODES[i % 3], "", 1 + i % 2, [["A", "R"], ["R", "A"]][: 1 + i % 2], long_stall=True, nmsgs=3)
+    # told to stop (SIGTERM) while a destination keeps a request waiting: nothing is finished that no destination has accepted
+    for i in range(4 if ctx.quick else 18):
+        tool, mode, method = COMBOS[(i * 2) % len(COMBOS)]
+        add(tool, mode, method, 1 + i % 2, [["A", "A"], ["A"]][: 1 + i % 2], term_mid=True, nmsgs=4, backoff=False)
     # a filter / sampling was requested (validated against RelayAbs with Filter = TRUE)
     add("nsq_to_nsq", "hostpool", "", 1, [["R"]], filter="require", nmsgs=6)
     add("nsq_to_nsq", "round-robin", "", 1, [["R"]], filter="requirevalue", nmsgs=8)
